@@ -1,27 +1,11 @@
-(* C17, determinism: the maps of the module (Endpoints, Types, Views, AttrDefs of a tuple / relation) reach the
-   model as lists in the order Go happened to iterate them. Whatever that order is, Normalize refuses the same
-   modules and otherwise yields the same rows up to row order (the relations are sets for the transform scripts). *)
+(* C17, determinism: the maps of the module (Endpoints, Types, Views, AttrDefs of a tuple / relation, the annotations
+   of an attribute set) reach the model as lists in the order Go happened to iterate them. Since the code walks each
+   of them through sortedKeys (modelled by sorted_by), Normalize is a FUNCTION of the module: two readings of the same
+   maps give the same outcome - the same rows in the same order, not merely the same rows up to permutation.
+   The hypothesis NoDup (map key l) is what "l lists a Go map" means. *)
 From Coq Require Import List NArith ZArith PArith Bool Lia Permutation.
 Import ListNotations.
-Require Import Verif.Relmod.Model.
-
-Lemma Permutation_concat_map2 {A B} (R:A -> A -> Prop) (f g:A -> list B) l l' :
-  (forall x y, R x y -> Permutation (f x) (g y)) -> Forall2 R l l' ->
-  Permutation (concat (map f l)) (concat (map g l')).
-Proof.
-  intros H. induction 1 as [|x y l l' Hxy _ IH]; [constructor|].
-  cbn [map concat]. apply Permutation_app; [apply H, Hxy|exact IH].
-Qed.
-
-Lemma Permutation_concat_map {A B} (f:A -> list B) l l' :
-  Permutation l l' -> Permutation (concat (map f l)) (concat (map f l')).
-Proof.
-  induction 1 as [|x l l' _ IH|x y l|l l' l'' _ IH1 _ IH2]; cbn [map concat].
-  - constructor.
-  - apply Permutation_app_head, IH.
-  - rewrite !app_assoc. apply Permutation_app_tail, Permutation_app_comm.
-  - eapply Permutation_trans; eassumption.
-Qed.
+Require Import Verif.Relmod.Model Verif.Relmod.SortProps.
 
 Lemma existsb_perm {A} (f:A -> bool) l l' : Permutation l l' -> existsb f l = existsb f l'.
 Proof.
@@ -34,74 +18,102 @@ Proof.
     congruence.
 Qed.
 
-(* two readings of the same Go maps *)
-Inductive tdef_equiv : tdef -> tdef -> Prop :=
-| TE_tuple fs fs' : Permutation fs fs' -> tdef_equiv (DTuple fs) (DTuple fs')
-| TE_rel pk fs fs' : Permutation fs fs' -> tdef_equiv (DRelation pk fs) (DRelation pk fs')
-| TE_same d : tdef_equiv d d.
-Definition type_equiv (t t':typedecl) : Prop :=
-  t_name t = t_name t' /\ t_opt t = t_opt t' /\ t_attrs t = t_attrs t' /\ tdef_equiv (t_def t) (t_def t').
-Definition app_equiv (ap ap':app) : Prop :=
-  ap_name ap = ap_name ap' /\ ap_attrs ap = ap_attrs ap' /\ ap_mixins ap = ap_mixins ap' /\
-  Permutation (ap_eps ap) (ap_eps ap') /\
-  (exists l, Permutation (ap_types ap) l /\ Forall2 type_equiv l (ap_types ap')) /\
-  Permutation (ap_views ap) (ap_views ap').
-
-Lemma type_rows_equiv a t t' : type_equiv t t' -> Permutation (type_rows a t) (type_rows a t').
+(* sorting two lists related elementwise by a relation that preserves keys keeps them related *)
+Lemma insert_by_Forall2 {A} (k:A -> positive) (R:A -> A -> Prop) (HR : forall x y, R x y -> k x = k y) x y l l' :
+  R x y -> Forall2 R l l' -> Forall2 R (insert_by k x l) (insert_by k y l').
 Proof.
-  destruct t as [n o d at_], t' as [n' o' d' at_']. unfold type_equiv. cbn [t_name t_opt t_attrs t_def].
-  intros (Hn & Ho & Ha & Hd). subst n' o' at_'. unfold type_rows. cbn [t_name t_opt t_attrs t_def].
-  apply perm_skip, Permutation_app_tail. destruct Hd as [fs fs' Hp|pk fs fs' Hp|d].
-  - apply Permutation_concat_map, Hp.
-  - apply perm_skip, Permutation_concat_map, Hp.
-  - apply Permutation_refl.
+  intros Hxy. induction 1 as [|a b l l' Hab Hll IH]; cbn [insert_by]; [constructor; [exact Hxy|constructor]|].
+  rewrite <- (HR _ _ Hxy), <- (HR _ _ Hab). destruct (Pos.leb (k x) (k a)).
+  - constructor; [exact Hxy|]. constructor; assumption.
+  - constructor; [exact Hab|exact IH].
 Qed.
 
-Lemma app_rows_equiv cm am ap ap' : app_equiv ap ap' -> Permutation (app_rows cm am ap) (app_rows cm am ap').
+Lemma sorted_by_Forall2 {A} (k:A -> positive) (R:A -> A -> Prop) (HR : forall x y, R x y -> k x = k y) l l' :
+  Forall2 R l l' -> Forall2 R (sorted_by k l) (sorted_by k l').
 Proof.
-  intros (Hn & Ha & Hm & He & (l & Hp & Hf) & Hv). unfold app_rows. rewrite Hn, Ha, Hm.
-  apply perm_skip, Permutation_app_head, Permutation_app_head.
-  apply Permutation_app; [apply Permutation_concat_map, He|].
-  apply Permutation_app; [|apply Permutation_concat_map, Hv].
-  eapply Permutation_trans; [apply Permutation_concat_map, Hp|].
-  eapply Permutation_concat_map2; [|exact Hf]. intros x y Hxy. apply type_rows_equiv, Hxy.
+  induction 1 as [|a b l l' Hab _ IH]; cbn [sorted_by]; [constructor|]. apply insert_by_Forall2; assumption.
+Qed.
+
+Lemma map_Forall2_eq {A B} (R:A -> A -> Prop) (f:A -> B) l l' :
+  (forall x y, R x y -> f x = f y) -> Forall2 R l l' -> map f l = map f l'.
+Proof. intros H. induction 1 as [|a b l l' Hab _ IH]; cbn [map]; [reflexivity|]. rewrite (H _ _ Hab), IH. reflexivity. Qed.
+
+(* annotations of one attribute set *)
+Theorem meta_order_independent o a keys p zs at_ at_' :
+  a_tags at_ = a_tags at_' -> NoDup (a_annos at_) -> Permutation (a_annos at_) (a_annos at_') ->
+  meta o a keys p zs at_ = meta o a keys p zs at_'.
+Proof.
+  intros Ht Hnd Hp. unfold meta, sort_names. rewrite Ht.
+  rewrite (sorted_by_perm_eq (fun n => n) (a_annos at_) (a_annos at_')); [reflexivity| |exact Hp].
+  rewrite map_id. exact Hnd.
+Qed.
+
+(* two readings of the same Go maps *)
+Inductive tdef_equiv : tdef -> tdef -> Prop :=
+| TE_tuple fs fs' : NoDup (map f_name fs) -> Permutation fs fs' -> tdef_equiv (DTuple fs) (DTuple fs')
+| TE_rel pk fs fs' : NoDup (map f_name fs) -> Permutation fs fs' -> tdef_equiv (DRelation pk fs) (DRelation pk fs')
+| TE_same d : tdef_equiv d d.
+Definition type_equiv (t t':typedecl) : Prop :=
+  t_name t = t_name t' /\ t_doc t = t_doc t' /\ t_opt t = t_opt t' /\ t_attrs t = t_attrs t' /\ tdef_equiv (t_def t) (t_def t').
+Definition app_equiv (ap ap':app) : Prop :=
+  ap_name ap = ap_name ap' /\ ap_long ap = ap_long ap' /\ ap_doc ap = ap_doc ap' /\ ap_attrs ap = ap_attrs ap' /\
+  ap_mixins ap = ap_mixins ap' /\
+  (NoDup (map e_name (ap_eps ap)) /\ Permutation (ap_eps ap) (ap_eps ap')) /\
+  (NoDup (map t_name (ap_types ap)) /\ exists l, Permutation (ap_types ap) l /\ Forall2 type_equiv l (ap_types ap')) /\
+  (NoDup (map v_name (ap_views ap)) /\ Permutation (ap_views ap) (ap_views ap')).
+
+Lemma type_rows_equiv a t t' : type_equiv t t' -> type_rows a t = type_rows a t'.
+Proof.
+  destruct t as [n dc o d at_], t' as [n' dc' o' d' at_']. unfold type_equiv. cbn [t_name t_doc t_opt t_attrs t_def].
+  intros (Hn & Hdc & Ho & Ha & Hd). subst n' dc' o' at_'. unfold type_rows. cbn [t_name t_doc t_opt t_attrs t_def].
+  destruct Hd as [fs fs' Hnd Hp|pk fs fs' Hnd Hp|d]; [| |reflexivity];
+    rewrite (sorted_by_perm_eq f_name fs fs' Hnd Hp); reflexivity.
+Qed.
+
+Lemma app_rows_equiv cm am ap ap' : app_equiv ap ap' -> app_rows cm am ap = app_rows cm am ap'.
+Proof.
+  intros (Hn & Hl & Hd & Ha & Hm & (Hne & He) & (Hnt & l & Hp & Hf) & (Hnv & Hv)). unfold app_rows.
+  rewrite Hn, Hl, Hd, Ha, Hm.
+  rewrite (sorted_by_perm_eq e_name _ _ Hne He), (sorted_by_perm_eq v_name _ _ Hnv Hv), (sorted_by_perm_eq t_name _ _ Hnt Hp).
+  assert (E : map (type_rows (ap_name ap')) (sorted_by t_name l) = map (type_rows (ap_name ap')) (sorted_by t_name (ap_types ap'))).
+  { eapply map_Forall2_eq; [intros x y Hxy; apply type_rows_equiv, Hxy|].
+    apply sorted_by_Forall2; [|exact Hf]. intros x y Hxy. apply Hxy. }
+  rewrite E. reflexivity.
 Qed.
 
 Lemma module_bad_equiv m m' : Forall2 app_equiv m m' -> module_bad m = module_bad m'.
 Proof.
   unfold module_bad. induction 1 as [|ap ap' m m' Hap _ IH]; [reflexivity|]. cbn [existsb]. rewrite IH. f_equal.
-  destruct Hap as (_ & _ & _ & He & _). apply existsb_perm, He.
+  destruct Hap as (_ & _ & _ & _ & _ & (_ & He) & _). apply existsb_perm, He.
 Qed.
 
-Definition same_outcome (a b:outcome) : Prop :=
-  match a, b with
-  | Refused, Refused => True
-  | Rows x, Rows y => Permutation x y
-  | _, _ => False
-  end.
-
 Theorem normalize_order_independent cm am m m' :
-  Forall2 app_equiv m m' -> same_outcome (normalize cm am m) (normalize cm am m').
+  Forall2 app_equiv m m' -> normalize cm am m = normalize cm am m'.
 Proof.
-  intros H. unfold normalize. rewrite <- (module_bad_equiv _ _ H). destruct (module_bad m); [exact I|].
-  cbn [same_outcome]. eapply Permutation_concat_map2; [|exact H]. intros x y Hxy. apply app_rows_equiv, Hxy.
+  intros H. unfold normalize. rewrite <- (module_bad_equiv _ _ H). destruct (module_bad m); [reflexivity|].
+  f_equal. f_equal. eapply map_Forall2_eq; [|exact H]. intros x y Hxy. apply app_rows_equiv, Hxy.
 Qed.
 
 (* non-vacuity: two different iteration orders of one application *)
 Definition ex_attrs : attrs := {| a_tags := [7%positive]; a_annos := [] |}.
 Definition ex_f1 : field := {| f_name := 20%positive; f_ty := MPrim 30%positive; f_opt := false; f_constraints := []; f_attrs := ex_attrs |}.
 Definition ex_f2 : field := {| f_name := 21%positive; f_ty := MPrim 31%positive; f_opt := true; f_constraints := []; f_attrs := ex_attrs |}.
-Definition ex_t (fs:list field) : typedecl := {| t_name := 10%positive; t_opt := false; t_def := DTuple fs; t_attrs := ex_attrs |}.
-Definition ex_t2 : typedecl := {| t_name := 11%positive; t_opt := false; t_def := DEnum [(40%positive, 1%Z)]; t_attrs := ex_attrs |}.
+Definition ex_t (fs:list field) : typedecl := {| t_name := 10%positive; t_doc := 9%positive; t_opt := false; t_def := DTuple fs; t_attrs := ex_attrs |}.
+Definition ex_t2 : typedecl := {| t_name := 11%positive; t_doc := 9%positive; t_opt := false; t_def := DEnum [(40%positive, 1%Z)]; t_attrs := ex_attrs |}.
 Definition ex_app (ts:list typedecl) : app :=
-  {| ap_name := [8%positive]; ap_attrs := ex_attrs; ap_mixins := []; ap_eps := []; ap_types := ts; ap_views := [] |}.
+  {| ap_name := [8%positive]; ap_long := 9%positive; ap_doc := 9%positive; ap_attrs := ex_attrs; ap_mixins := []; ap_eps := [];
+     ap_types := ts; ap_views := [] |}.
 Example order_independent_nonvacuous :
   Forall2 app_equiv [ex_app [ex_t [ex_f1; ex_f2]; ex_t2]] [ex_app [ex_t2; ex_t [ex_f2; ex_f1]]] /\
-  normalize CopyParent CopyParent [ex_app [ex_t [ex_f1; ex_f2]; ex_t2]] <> normalize CopyParent CopyParent [ex_app [ex_t2; ex_t [ex_f2; ex_f1]]].
+  [ex_app [ex_t [ex_f1; ex_f2]; ex_t2]] <> [ex_app [ex_t2; ex_t [ex_f2; ex_f1]]].
 Proof.
-  split; [|vm_compute; discriminate].
-  constructor; [|constructor]. repeat split; try reflexivity; try apply Permutation_refl.
-  exists [ex_t2; ex_t [ex_f1; ex_f2]]. split; [apply perm_swap|].
-  constructor; [repeat split; constructor|]. constructor; [|constructor].
-  repeat split. cbn. apply TE_tuple, perm_swap.
+  split; [|discriminate].
+  constructor; [|constructor]. unfold app_equiv. cbn [ex_app ap_name ap_long ap_doc ap_attrs ap_mixins ap_eps ap_types ap_views map].
+  repeat split; try reflexivity; try apply Permutation_refl; try constructor.
+  - intros [H|[]]; discriminate.
+  - constructor; [intros []|constructor].
+  - exists [ex_t2; ex_t [ex_f1; ex_f2]]. split; [apply perm_swap|].
+    constructor; [repeat split; constructor|]. constructor; [|constructor].
+    repeat split. cbn. apply TE_tuple; [|apply perm_swap].
+    cbn. constructor; [intros [H|[]]; discriminate|]. constructor; [intros []|constructor].
 Qed.
